@@ -76,6 +76,13 @@ class Prop(PropBase):
                 scn_all.append(scen.mixed_scenario(rng, self.L, t, f'c02_{t}_{r}', cfg, malformed_p=0.0, badblk_p=0.0, gap_p=0.15,
                                                    start_az=rng.choice([None, 35900, 35990, 0]), dist=far, rpm=rng.choice([300, 600, 1200, 2400]),
                                                    npk=3 if t != 'RSM1_JUMBO' else 1))
+        # a FOV-gap sized azimuth jump (> 1 deg) that crosses 0 deg inside a packet, single and dual return, every mechanical type:
+        # the last block before the gap takes the nominal step for its channel azimuths
+        for k, t in enumerate(scen.MECH):
+            cfg = scen.rand_cfg(rng, dense=0, wait=1, pktcb=0, min=0.0, max=0.0)
+            scn_all.append(scen.mixed_scenario(rng, self.L, t, f'c02_zerogap_{t}', cfg, malformed_p=0.0, badblk_p=0.0, gap_p=0.0, difop_at=0, zero_gap=True,
+                                               start_az=rng.choice([33000, 35000, 35900]), step=rng.choice([20, 40, 80]), dist=far, dual=bool(k % 2), npk=3,
+                                               fov=(1000, 35000), rpm=rng.choice([600, 1200])))
         # Bpearl: v3/v4 x normal/reversed with non-zero horizontal calibration
         for v4 in (False, True):
             for rev in (0, 1):
